@@ -173,8 +173,12 @@ def piece(draw, fr: Frame, kinds=None):
     if k == "tiny":
         a = _P(draw, fr)
         s = E * 2.0 ** (-draw(st.integers(7, 22)))
-        form = draw(st.sampled_from(["sq", "tri", "abs"]))
-        if form == "sq":
+        form = draw(st.sampled_from(["sq", "tri", "abs", "tri-ccw", "sq-ccw"]))
+        if form == "tri-ccw":
+            d = f"M{_xy(a)} l0,{num(s)} l{num(s)},0 z"
+        elif form == "sq-ccw":
+            d = f"M{_xy(a)} v{num(s)} h{num(s)} v{num(-s)} z"
+        elif form == "sq":
             d = f"M{_xy(a)} h{num(s)} v{num(s)} h{num(-s)} z"
         elif form == "tri":
             d = f"M{_xy(a)} l{num(s)},0 l0,{num(s)} z"
